@@ -2362,4 +2362,5 @@ CLAUSES = [
 # every toqito call of this property is repeated with column-major copies of its array arguments (engine.call, layout twin)
 for _c in CLAUSES:
     _c.layout_twin = True
+    _c.strided_twin = True  # and with strided read-only views (engine.call)
     _c.repeat_twin = True  # repeated calls agree; scribbling over a returned array must not affect later calls (engine.call)
